@@ -52,6 +52,12 @@ Definition is_sync_path (sp : spec) (b : obs) (r : req) : bool :=
 Definition law_sync_step (sp : spec) (r : req) (fresh pgv : bool) (b a : obs) : bool :=
   if fresh && negb (o_err a) && is_sync_path sp b r then law_sync_pods sp pgv (o_pods b) (o_pods a) else true.
 
+(* the same with the guard REQUIRED: used at the last sync of the directed families (resync, versionbump), where
+   the history is built so that the views are fresh, the sync succeeds and the job is on the sync path: a
+   guard that is false there is reported instead of making the law vacuous *)
+Definition law_sync_step_strict (sp : spec) (r : req) (fresh pgv : bool) (b a : obs) : bool :=
+  fresh && negb (o_err a) && is_sync_path sp b r && law_sync_pods sp pgv (o_pods b) (o_pods a).
+
 (* a second sync on the resulting (re-synced) state changes no pod and no counter *)
 Definition law_idem (a1 a2 : obs) : bool :=
   pods_eqb (o_pods a1) (o_pods a2) && negb (o_err a2).
